@@ -24,8 +24,8 @@ import numpy
 from affine import Affine
 
 from . import geom
-from .crs import CRS, MaybeCRS, SomeCRS, norm_crs
-from .geom import BoundingBox, Geometry, bbox_intersection, bbox_union
+from .crs import CRS, MaybeCRS, SomeCRS, norm_crs, norm_crs_or_error
+from .geom import BoundingBox, Geometry, bbox_intersection, bbox_union, polygon
 from .math import (
     clamp,
     is_affine_st,
@@ -247,7 +247,33 @@ class GeoBoxBase:
             buffer = buffer * max(*self.resolution.map(abs).xy)
             ext = ext.buffer(buffer)
 
-        return ext.to_crs(crs, resolution=self._reproject_resolution(npoints)).dropna()
+        crs = norm_crs_or_error(crs, ext)
+        if crs == self.crs:
+            return ext
+
+        # Project outline point by point and keep the points that land inside
+        # the domain of the projection: buffered outline of a raster that
+        # reaches the edge of its projection (global grids, edge tiles) has
+        # vertices that do not project, a ring that starts with one of those
+        # can not be constructed at all.
+        ext = ext.segmented(self._reproject_resolution(npoints))
+        xx, yy = ext.exterior.xy
+        xx, yy = self.crs.transformer_to_crs(crs)(numpy.asarray(xx), numpy.asarray(yy))
+        pts = [
+            (float(x), float(y))
+            for x, y in zip(xx, yy)
+            if math.isfinite(x) and math.isfinite(y)
+        ]
+        if len(pts) == len(xx):
+            return polygon(pts, crs)
+
+        if len(pts) < 3:
+            return polygon([], crs)
+        out = polygon(pts, crs)
+        if not out.is_valid:
+            # dropping points can leave a ring that crosses itself
+            out = out.buffer(0)
+        return out
 
     @property
     def geographic_extent(self) -> Geometry:
